@@ -504,7 +504,7 @@ class GCodeBuilder(GCodeCore):
         target_axes = self._current_axes.replace(*point)
         statement = self._get_statement(mode, params, comment)
 
-        self._update_axes(target_axes, params)
+        self._update_axes(target_axes, params, track=False)
         self.write(statement)
 
     def auto_home(self, point: PointLike = None, **kwargs) -> None:
@@ -536,7 +536,7 @@ class GCodeBuilder(GCodeCore):
         target_axes = self._current_axes.mask(point.x, point.y, point.z)
         statement = self._get_statement(mode, params, comment)
 
-        self._update_axes(target_axes, params)
+        self._update_axes(target_axes, params, track=False)
         self.write(statement)
 
     @typechecked
@@ -865,7 +865,6 @@ class GCodeBuilder(GCodeCore):
         # Track parameters and write the statement
 
         self._update_axes(target_axes, params)
-        self._track_move_params(params)
         self.write(statement)
 
     @typechecked
@@ -956,7 +955,6 @@ class GCodeBuilder(GCodeCore):
             for hook in self._hooks:
                 params = hook(origin, target, params, self.state)
 
-        self._track_move_params(params)
         return super()._prepare_move(point, params, comment)
 
     def _prepare_rapid(self,
@@ -975,7 +973,6 @@ class GCodeBuilder(GCodeCore):
                 - (ParamsDict) The updated movement parameters
         """
 
-        self._track_move_params(params)
         return super()._prepare_rapid(point, params, comment)
 
     def _track_move_params(self, params: ParamsDict) -> None:
@@ -994,20 +991,48 @@ class GCodeBuilder(GCodeCore):
         if params.get("S") is not None:
             self.state._set_tool_power(params.get("S"))
 
-    def _update_axes(self, axes: Point, params: ParamsDict) -> None:
+    def _validate_move_params(self, params: ParamsDict) -> None:
+        """Validate the tracked movement parameters without storing them.
+
+        Args:
+            params: The current movement parameters
+
+        Raises:
+            ValueError: If the feed rate or tool power are not valid
+        """
+
+        if params.get("F") is not None:
+            self.state._validate_feed_rate(params.get("F"))
+
+        if params.get("S") is not None:
+            self.state._validate_tool_power(params.get("S"))
+
+    def _update_axes(self,
+        axes: Point, params: ParamsDict, track: bool = True) -> None:
         """Update the internal state after a movement.
 
         Updates the current position and movement parameters to reflect
-        the new machine state after executing a move command.
+        the new machine state after executing a move command. Everything
+        is validated before anything is stored, so that a rejected
+        command leaves the tracked state untouched.
 
         Args:
             axes: The new position of all axes
             params: The movement parameters used in the command
+            track: Whether to track the feed rate and tool power
         """
+
+        self.state._validate_axes(axes)
+
+        if track is True:
+            self._validate_move_params(params)
 
         super()._update_axes(axes, params)
         self.state._set_params(self._current_params)
         self.state._set_axes(self._current_axes)
+
+        if track is True:
+            self._track_move_params(params)
 
     def _get_statement(self,
         value: BaseEnum, params: dict | None = None, comment: str | None = None)-> str:
